@@ -9,6 +9,7 @@
 //@harness name=create_zero_precision_width5 tier=quick label=bounded(5-frames,width-5-window,concrete-data) props=C05 timeout=900
 //@harness name=create_zero_precision_next_to_unvoiced tier=quick label=bounded(3-frames,delta-window,concrete-data) props=C05,C11 timeout=900
 //@harness name=adjust_new_stores_its_arguments_unchanged tier=quick label=bounded(1-state,concrete-gv) props=C12,C11,C05 timeout=900
+//@harness name=create_shape_all_unvoiced tier=quick label=bounded(durations=[1,2],static-window,concrete-voicing) props=C05,C11,C01 timeout=900
 use super::*;
 use crate::model::voice::window::Window;
 
@@ -37,6 +38,9 @@ fn create_shape_all_voiced() { shape_and_nodata(0.9, f64::MAX, 0.5); kani::cover
 #[kani::proof]
 #[kani::unwind(8)]
 fn create_shape_second_state_unvoiced() { shape_and_nodata(0.9, 0.5, 0.5); kani::cover!(true); }   // weight == threshold is unvoiced
+#[kani::proof]
+#[kani::unwind(8)]
+fn create_shape_all_unvoiced() { shape_and_nodata(0.1, 0.2, 0.5); kani::cover!(true); }   // no voiced frame at all: every row carries NODATA
 #[kani::proof]
 #[kani::unwind(8)]
 fn create_shape_first_state_unvoiced() { shape_and_nodata(0.1, 0.9, 0.5); kani::cover!(true); }
